@@ -272,6 +272,7 @@ type World struct {
 	VS    *quickfix.VerifSession
 	ID    quickfix.SessionID
 	store *recStore
+	sf    quickfix.MessageStoreFactory // the persistent store's own factory (second instances: another process on the same data)
 	app   *recApp
 	log   []Obs
 
@@ -295,8 +296,8 @@ type World struct {
 	Loop        *LoopCtl // non-nil: run-loop mode
 	lastSent    *quickfix.Message
 	sameN       int
-	sqlDSN      string   // SQL-store worlds: the data source (statement failures are planned per data source)
-	Hung        bool     // a handler did not return (the world is abandoned)
+	sqlDSN      string // SQL-store worlds: the data source (statement failures are planned per data source)
+	Hung        bool   // a handler did not return (the world is abandoned)
 	applyStart  int
 	ResetDay    int // occurrences of the reset-time event so far
 	ClockSec    int // seconds past the last crossing (clock-tick events)
@@ -463,6 +464,7 @@ func (w *World) boot(first bool) error {
 	} else {
 		sf = quickfix.NewMemoryStoreFactory()
 	}
+	w.sf = sf
 	w.app = &recApp{w: w}
 	vs, err := quickfix.VerifNewSession(cfg.Initiator, id, recFactory{sf, w}, ss, quickfix.NewNullLogFactory(), w.app)
 	if err != nil {
@@ -769,8 +771,8 @@ type Event struct {
 	SendGroupLast bool
 	// SendType: MsgType of the application message (default D); SendNews: a News message whose first body field is
 	// the LinesOfText group count (33)
-	SendType string
-	SendNews bool
+	SendType  string
+	SendNews  bool
 	SendEmpty bool // the application message carries no body field at all
 	SendSame  bool // the Message object of the previous send is changed and submitted again
 	// FailWrite: during this send the k-th write of the session's file store fails (file-store worlds only)
@@ -1255,3 +1257,33 @@ func (w *World) Stored(seq int) ([][]byte, error) { return w.store.MessageStore.
 
 // Log returns the full ordered observation log.
 func (w *World) Log() []Obs { return w.log }
+
+// ExtAdvance: another process (the active node of a hot-standby pair) uses the same persistent store while this engine
+// is not connected: it sends one message and receives one. Returns the number it used and the bytes it stored there.
+func (w *World) ExtAdvance() (int, []byte, error) {
+	st, err := w.sf.Create(w.ID)
+	if err != nil {
+		return 0, nil, err
+	}
+	defer st.Close()
+	n := st.NextSenderMsgSeqNum()
+	b := fixscan.Build([]fixscan.Field{{8, w.Cfg.BeginString}, {35, "0"}, {34, strconv.Itoa(n)}, {49, OurComp}, {52, fixscan.Stamp(time.Now().Add(-time.Minute))}, {56, PeerComp}, {112, "FROM-THE-OTHER-NODE"}})
+	if err := st.SaveMessageAndIncrNextSenderMsgSeqNum(n, b); err != nil {
+		return 0, nil, err
+	}
+	if err := st.IncrNextTargetMsgSeqNum(); err != nil {
+		return 0, nil, err
+	}
+	return n, b, nil
+}
+
+// Persisted reads the persistent store through a fresh instance: both counters and what is stored under number n.
+func (w *World) Persisted(n int) (s, t int, msgs [][]byte, err error) {
+	st, err := w.sf.Create(w.ID)
+	if err != nil {
+		return 0, 0, nil, err
+	}
+	defer st.Close()
+	msgs, err = st.GetMessages(n, n)
+	return st.NextSenderMsgSeqNum(), st.NextTargetMsgSeqNum(), msgs, err
+}
